@@ -1,6 +1,6 @@
 (* GenBankProofs.v — theorems about the GenBank reader/writer model
    (model/GenBank.v, model/Insdc.v): totality and round trips of the pieces. *)
-From GTS Require Import Base Arith Tables Pars Loc Seq Origin Insdc GenBank BaseLemmas ParsLemmas Safety.
+From GTS Require Import Base Arith Tables Pars Loc Seq Origin Insdc GenBank BaseLemmas ParsLemmas Safety FastaProofs.
 From Coq Require Import Lia ZifyBool.
 Open Scope Z_scope.
 
@@ -174,3 +174,155 @@ Proof.
   unfold refs_slice. destruct (omapM _ refs) as [l|k| |]; cbn [obind]; try discriminate.
   intros H. inversion H; subst. rewrite renumber_numbers. unfold zlen. now rewrite renumber_length.
 Qed.
+
+(* ---------- wrap.Space only turns blanks into line breaks *)
+
+Definition unwrap (s : list byte) : list byte := map (fun c => if c =? 10 then 32 else c) s.
+Definition no_nl (s : list byte) : Prop := Forall (fun c => c <> 10) s.
+
+Lemma index_byte_from_spec c s : forall i k, index_byte_from c s i = Some k ->
+  (i <= k)%nat /\ (k - i < length s)%nat /\ nth (k - i) s 0 = c.
+Proof.
+  induction s as [|x t IH]; intros i k H; cbn [index_byte_from] in H; [discriminate|].
+  destruct (Z.eqb_spec x c).
+  - inversion H; subst. replace (k - k)%nat with 0%nat by lia. cbn. repeat split; lia.
+  - destruct (IH (S i) k H) as (H1 & H2 & H3). repeat split; try lia; cbn [length]; try lia.
+    replace (k - i)%nat with (S (k - S i)) by lia. cbn [nth]. exact H3.
+Qed.
+
+Lemma last_index_byte_spec c s : forall i acc k, last_index_byte c s i acc = Some k ->
+  (acc = Some k) \/ ((i <= k)%nat /\ (k - i < length s)%nat /\ nth (k - i) s 0 = c).
+Proof.
+  induction s as [|x t IH]; intros i acc k H; cbn [last_index_byte] in H; [left; exact H|].
+  destruct (IH (S i) _ k H) as [Ha|(H1 & H2 & H3)].
+  - destruct (Z.eqb_spec x c).
+    + inversion Ha; subst. right. replace (k - k)%nat with 0%nat by lia. cbn. repeat split; lia.
+    + left; exact Ha.
+  - right. repeat split; try lia; cbn [length]; try lia.
+    replace (k - i)%nat with (S (k - S i)) by lia. cbn [nth]. exact H3.
+Qed.
+
+Lemma split_at_nth (s : list byte) i : (i < length s)%nat ->
+  s = firstn i s ++ [nth i s 0] ++ skipn (S i) s.
+Proof.
+  revert i. induction s as [|x t IH]; intros i H; [cbn in H; lia|].
+  destruct i as [|i]; [reflexivity|]. cbn [firstn skipn nth app]. f_equal. apply IH. cbn in H. lia.
+Qed.
+
+Lemma unwrap_id s : no_nl s -> unwrap s = s.
+Proof.
+  induction s as [|x t IH]; intros H; [reflexivity|]. inversion H; subst. cbn [unwrap map].
+  destruct (Z.eqb_spec x 10); [contradiction|]. f_equal. apply IH. assumption.
+Qed.
+
+Lemma unwrap_app a b : unwrap (a ++ b) = unwrap a ++ unwrap b.
+Proof. apply map_app. Qed.
+
+Lemma no_nl_index s : no_nl s -> index_byte_from 10 s 0 = None.
+Proof.
+  intros H. destruct (index_byte_from 10 s 0) as [k|] eqn:E; [|reflexivity].
+  destruct (index_byte_from_spec _ _ _ _ E) as (_ & H2 & H3). replace (k - 0)%nat with k in * by lia.
+  exfalso. unfold no_nl in H. rewrite Forall_forall in H. apply (H (nth k s 0)); [apply nth_In; assumption|assumption].
+Qed.
+
+Lemma nth_firstn_lt (s : list byte) n i : (i < n)%nat -> nth i (firstn n s) 0 = nth i s 0.
+Proof.
+  revert n i. induction s as [|x t IH]; intros n i H; [destruct n, i; reflexivity|].
+  destruct n; [lia|]. destruct i; [reflexivity|]. cbn [firstn nth]. apply IH. lia.
+Qed.
+
+Theorem wrap_unwrap fuel : forall s n, no_nl s -> unwrap (wrap_at fuel s 32 n) = s.
+Proof.
+  induction fuel as [|f IH]; intros s n Hs; cbn [wrap_at]; [apply unwrap_id, Hs|].
+  rewrite (no_nl_index s Hs).
+  destruct (Nat.ltb n (length s)); [|apply unwrap_id, Hs].
+  assert (Cut : forall i, (i < length s)%nat -> nth i s 0 = 32 ->
+                unwrap (firstn i s ++ [10] ++ wrap_at f (skipn (S i) s) 32 n) = s).
+  { intros i Hi Hn. rewrite !unwrap_app. rewrite (unwrap_id (firstn i s)) by (apply Forall_firstn', Hs).
+    rewrite IH by (apply Forall_skipn', Hs). cbn [unwrap map]. change (10 =? 10) with true. cbv iota.
+    rewrite <- Hn. symmetry. apply split_at_nth, Hi. }
+  destruct (last_index_byte 32 (firstn n s) 0 None) as [i|] eqn:El.
+  - destruct (last_index_byte_spec _ _ _ _ _ El) as [Hx|(H1 & H2 & H3)]; [discriminate|].
+    replace (i - 0)%nat with i in * by lia. rewrite firstn_length in H2.
+    apply Cut; [lia|]. rewrite <- H3. symmetry. apply nth_firstn_lt. lia.
+  - destruct (index_byte_from 32 s 0) as [i|] eqn:Ei; [|apply unwrap_id, Hs].
+    destruct (index_byte_from_spec _ _ _ _ Ei) as (_ & H2 & H3). replace (i - 0)%nat with i in * by lia.
+    apply Cut; assumption.
+Qed.
+
+(* the KEYWORDS / taxonomy layout: wrapped at blanks, continuation lines joined with a blank *)
+Corollary wrap_space_unwrap s n : no_nl s -> unwrap (wrap_space s n) = s.
+Proof. apply wrap_unwrap. Qed.
+
+(* ---------- keywords and taxonomy: join with "; " and split again *)
+
+Lemma split_step fuel c t cur :
+  ~ (c = 59 /\ exists t', t = 32 :: t') ->
+  split_semi (S fuel) (c :: t) cur = split_semi fuel t (c :: cur).
+Proof.
+  intros H. cbn [split_semi].
+  destruct (Z.eq_dec c 59) as [->|Hc].
+  - destruct t as [|d t']; [reflexivity|].
+    destruct (Z.eq_dec d 32) as [->|Hd]; [exfalso; apply H; split; [reflexivity|eexists; reflexivity]|].
+    destruct d as [|p|p]; try reflexivity.
+    repeat (destruct p as [p|p|]; try reflexivity). exfalso; apply Hd; reflexivity.
+  - destruct c as [|p|p]; try reflexivity.
+    repeat (destruct p as [p|p|]; try reflexivity). exfalso; apply Hc; reflexivity.
+Qed.
+
+Lemma split_sep fuel t cur : split_semi (S fuel) (59 :: 32 :: t) cur = rev cur :: split_semi fuel t [].
+Proof. reflexivity. Qed.
+
+(* a keyword: no "; " inside it *)
+Fixpoint nosep (k : list byte) : Prop :=
+  match k with
+  | [] => True
+  | c :: t => ~ (c = 59 /\ exists t', t = 32 :: t') /\ nosep t
+  end.
+
+Lemma split_keyword k : forall rest cur fuel, nosep k -> (length (k ++ (59 :: 32 :: rest)%Z) < fuel)%nat ->
+  exists fuel', (length rest < fuel')%nat /\
+    split_semi fuel (k ++ 59 :: 32 :: rest) cur = (rev cur ++ k) :: split_semi fuel' rest [].
+Proof.
+  induction k as [|c t IH]; intros rest cur fuel Hk Hf; cbn [app] in *.
+  - destruct fuel as [|f]; [cbn [length] in Hf; unfold byte in *; lia|]. exists f. split; [cbn [length] in Hf; unfold byte in *; lia|].
+    rewrite split_sep. now rewrite app_nil_r.
+  - destruct fuel as [|f]; [cbn [length] in Hf; unfold byte in *; lia|]. destruct Hk as [Hc Ht].
+    rewrite split_step.
+    + destruct (IH rest (c :: cur) f Ht ltac:(cbn [length] in Hf; unfold byte in *; lia)) as (f' & Hf' & E).
+      exists f'. split; [exact Hf'|]. eapply eq_trans; [exact E|]. cbn [rev]. now rewrite <- app_assoc.
+    + intros [-> [t' Ht']]. apply Hc. split; [reflexivity|].
+      destruct t as [|d t0]; cbn [app] in Ht'; [discriminate|]. inversion Ht'; subst. eexists; reflexivity.
+Qed.
+
+Lemma split_last_keyword k : forall cur fuel, nosep k -> (length k < fuel)%nat ->
+  split_semi fuel k cur = [rev cur ++ k].
+Proof.
+  induction k as [|c t IH]; intros cur fuel Hk Hf.
+  - destruct fuel as [|f]; [cbn [length] in Hf; unfold byte in *; lia|]. cbn [split_semi]. now rewrite app_nil_r.
+  - destruct fuel as [|f]; [cbn [length] in Hf; unfold byte in *; lia|]. destruct Hk as [Hc Ht]. rewrite split_step by exact Hc.
+    eapply eq_trans; [exact (IH (c :: cur) f Ht ltac:(cbn [length] in Hf; unfold byte in *; lia))|]. cbn [rev]. now rewrite <- app_assoc.
+Qed.
+
+Lemma split_joined ks : forall k fuel, Forall nosep (k :: ks) ->
+  (length (sep_by [59; 32]%Z (k :: ks)) < fuel)%nat ->
+  split_semi fuel (sep_by [59; 32] (k :: ks)) [] = k :: ks.
+Proof.
+  induction ks as [|k2 t IH]; intros k fuel H Hf; inversion H as [|? ? Hk Hr]; subst.
+  - cbn [sep_by flat_map] in *. rewrite app_nil_r in *. apply (split_last_keyword k [] fuel Hk Hf).
+  - change (sep_by [59; 32] (k :: k2 :: t)) with (k ++ 59 :: 32 :: sep_by [59; 32] (k2 :: t)) in *.
+    destruct (split_keyword k (sep_by [59; 32] (k2 :: t)) [] fuel Hk Hf) as (f' & Hf' & E).
+    eapply eq_trans; [exact E|]. cbn [rev app]. f_equal. apply IH; assumption.
+Qed.
+
+(* FlatFileSplit undoes strings.Join(..., "; ") + "." *)
+Theorem flatfile_split_join ks : Forall nosep ks -> join_semi ks <> [] ->
+  flatfile_split (join_semi ks ++ [46]) = ks.
+Proof.
+  intros H Hne. unfold flatfile_split. rewrite rev_app_distr. cbn [rev app]. rewrite rev_involutive.
+  destruct (join_semi ks) as [|c s] eqn:E; [contradiction|]. rewrite <- E.
+  destruct ks as [|k t]; [discriminate|]. unfold join_semi in *. apply split_joined; [exact H|lia].
+Qed.
+
+Theorem flatfile_split_empty : flatfile_split (join_semi [] ++ [46]) = [].
+Proof. reflexivity. Qed.
